@@ -57,7 +57,7 @@ def main():
                                         "harness": [l[:300] for l in p.stdout.splitlines() if l.startswith("HARNESS-ERROR")][:3],
                                         "summary": (p.stderr.strip().splitlines() or [""])[-1], "wall_s": round(time.time() - t0, 1)}
         finally:
-            sh("git -C /repo worktree remove --force %s; rm -f %s/bin/*ksim_scratch*" % (wt, VERIF))
+            sh("git -C /repo worktree remove --force %s; rm -f %s/bin/*ksim_scratch_%d*" % (wt, VERIF, os.getpid()))
         out["repo_restored"] = True
         print(json.dumps(out, indent=1))
         return
